@@ -135,7 +135,7 @@ func (s *scanner) Length() (uint, error) {
 		if lex.Type() == lexeme.EndTop {
 			// Found character after the end of the schema and spaces.
 			// Example: char "s" in "{} some text"
-			length = uint(lex.End()) - 1
+			length = uint(lex.End())
 			break
 		}
 
